@@ -108,10 +108,10 @@ theorem continuity_of_exact_open {b : Basis K} (hv : b.Valid) (hper : b.periodic
         · exact h
         · exact absurd (l2' i hi) (not_lt.2 h))
       (by have := l3' _ (le_refl _) (by omega); linarith)
-  have hw : ¬ (x < b.start ∨ b.stop < x) := by
+  have hw : ¬ (x < b.start - tol ∨ b.stop + tol < x) := by
     rintro (h | h)
-    · exact absurd hx.1 (not_le.2 h)
-    · exact absurd h (not_lt.2 (le_of_lt hx.2))
+    · exact absurd hx.1 (not_le.2 (by linarith))
+    · exact absurd h (not_lt.2 (by linarith [hx.2]))
   have hnp : ¬ (b.periodic ≥ 0) := by rw [hper]; decide
   unfold Basis.continuity Basis.mult
   simp only [hnp, if_false, hw, hhi, hlo]
